@@ -128,10 +128,11 @@ fn conv(closed: bool) {
   let (tx, rx) = mk();
   if closed { assert!(tx.close().is_ok()); }
   let s0 = rx.shared.k_snap();
+  let rc_tx = std::sync::Arc::strong_count(&tx.shared);
   let atx = tx.to_async();
-  assert!(atx.closed.load(Ordering::Relaxed) == closed);
+  assert!(atx.closed.load(Ordering::Relaxed) == closed && std::sync::Arc::strong_count(&atx.shared) == rc_tx);
   let stx = atx.to_sync();
-  assert!(stx.closed.load(Ordering::Relaxed) == closed);
+  assert!(stx.closed.load(Ordering::Relaxed) == closed && std::sync::Arc::strong_count(&stx.shared) == rc_tx);
   let s1 = rx.shared.k_snap();
   assert!(s1.0 == s0.0 && s1.1 == s0.1);
   if closed {
@@ -143,10 +144,15 @@ fn conv(closed: bool) {
   assert!(rx.shared.k_sender_count() == if closed { s0.0 } else { s0.0 - 1 });
   // receiver side
   if closed { assert!(rx.close().is_ok()); }
+  let rc_rx = std::sync::Arc::strong_count(&rx.shared);
   let arx = rx.to_async();
-  assert!(arx.closed.load(Ordering::Relaxed) == closed);
+  assert!(arx.closed.load(Ordering::Relaxed) == closed && std::sync::Arc::strong_count(&arx.shared) == rc_rx);
+  let rc0 = std::sync::Arc::strong_count(&arx.shared);
   let srx = arx.to_sync();
   assert!(srx.closed.load(Ordering::Relaxed) == closed);
+  // a conversion moves the handle's reference, it neither adds nor loses one (a leaked count would keep the
+  // shared core - and every undelivered value in it - alive for ever)
+  assert!(std::sync::Arc::strong_count(&srx.shared) == rc0);
   if closed { assert!(matches!(srx.try_recv(), Err(TryRecvError::Disconnected))); assert!(srx.close().is_err()); }
   std::mem::forget(srx);
   kani::cover!(true, "END");
@@ -259,7 +265,7 @@ fn ob_c04_mpsc_gate_receiver() { gate_receiver(); }
 #[kani::unwind(10)]
 fn ob_c04_mpsc_gate_async_receiver() { gate_async_receiver(); }
 
-// @obligation id=c04.mpsc.conv.closed props=C04,C01 kind=hist tier=quick bound="bounded(1) built with one-slot stub chunks (no slot is touched), wake_all_senders/wake_all_receivers cut (no-op stubs); payloads any u8; close, to_async, to_sync on both sides"
+// @obligation id=c04.mpsc.conv.closed props=C04,C01,C09 kind=hist tier=quick bound="bounded(1) built with one-slot stub chunks (no slot is touched), wake_all_senders/wake_all_receivers cut (no-op stubs); payloads any u8; close, to_async, to_sync on both sides"
 #[kani::proof]
 #[kani::stub(std::thread::current::current, crate::verif_k_stubs::stub_thread_current)]
 #[kani::stub(parking_lot::RawMutex::lock_slow, crate::verif_k_stubs::stub_lock_slow)]
@@ -273,7 +279,7 @@ fn ob_c04_mpsc_gate_async_receiver() { gate_async_receiver(); }
 #[kani::unwind(10)]
 fn ob_c04_mpsc_conv_closed() { conv(true); }
 
-// @obligation id=c04.mpsc.conv.open props=C04,C01 kind=hist tier=quick bound="bounded(1) built with one-slot stub chunks (no slot is touched), wake_all_senders/wake_all_receivers cut (no-op stubs); payloads any u8; to_async, to_sync on both sides"
+// @obligation id=c04.mpsc.conv.open props=C04,C01,C09 kind=hist tier=quick bound="bounded(1) built with one-slot stub chunks (no slot is touched), wake_all_senders/wake_all_receivers cut (no-op stubs); payloads any u8; to_async, to_sync on both sides"
 #[kani::proof]
 #[kani::stub(std::thread::current::current, crate::verif_k_stubs::stub_thread_current)]
 #[kani::stub(parking_lot::RawMutex::lock_slow, crate::verif_k_stubs::stub_lock_slow)]
